@@ -77,6 +77,8 @@ type Monitors struct {
 	prevote2     *prevoteState
 	// per (node, incarnation, index of a configuration entry appended by that leader): commitment index at the append
 	cfgAppendCommit map[[3]uint64]uint64
+	verifyCfg       map[int]raft.Configuration // per VerifyLeader call: the configuration in force when it was issued
+	firstOwn        map[[2]uint64]uint64       // (node, term) -> index of the first entry that leader stored in its term
 	held            map[int]map[uint64]Applied // per node: what its log store holds (mirror kept by the store hooks)
 }
 
@@ -361,6 +363,11 @@ func (m *Monitors) OnSend(msg *Msg) {
 		}
 	}
 	if t, ok := termOfReq(msg.Req); ok {
+		// whoever sends AppendEntries / InstallSnapshot as leader of term t was seen winning term t (the observer runs
+		// synchronously inside setState, so the record precedes anything the new leader sends)
+		if w, ok := m.leaders[t]; !ok || w != msg.From {
+			m.fail("C01", "sender-never-won-term", "n%d sends %s as leader of term %d, a term it was never seen winning (winner on record: %v)", msg.From, msg.Kind, t, m.leaders[t])
+		}
 		if prev, ok := m.senders[t]; ok && prev != msg.From {
 			m.fail("C01", "two-senders-one-term", "n%d and n%d both sent %s as leader of term %d", prev, msg.From, msg.Kind, t)
 		}
@@ -442,6 +449,15 @@ func (m *Monitors) OnStoreLogs(node int, logs []*raft.Log) {
 	// C07: a leader appends a configuration only after the previous one is committed
 	// and after an entry of its own term is committed
 	if n.up && n.r != nil && n.r.State() == raft.Leader && m.w.nodeOfCur() == n {
+		if m.firstOwn == nil {
+			m.firstOwn = map[[2]uint64]uint64{}
+		}
+		for _, l := range logs {
+			// the first entry this leader stored in its term (its no-op); survives compaction and log resets
+			if k := [2]uint64{uint64(node), l.Term}; l.Term == n.r.CurrentTerm() && m.firstOwn[k] == 0 {
+				m.firstOwn[k] = l.Index
+			}
+		}
 		for _, l := range logs {
 			if l.Type != raft.LogConfiguration {
 				continue
@@ -473,6 +489,9 @@ func (m *Monitors) OnStoreLogs(node int, logs []*raft.Log) {
 					firstOwn = i
 					break
 				}
+			}
+			if fo := m.firstOwn[[2]uint64{uint64(node), l.Term}]; fo != 0 && fo != l.Index {
+				firstOwn = fo
 			}
 			if s := n.snaps.Newest(); s != nil && s.meta.Term == l.Term && s.meta.Index <= ci {
 				firstOwn = 0 // an entry of this term is covered by the server's snapshot, hence committed
@@ -712,7 +731,16 @@ func (m *Monitors) OnFSMSnapshot(node, inc int, content []Applied) {}
 // ---------------------------------------------------------------------------
 // clients
 
-func (m *Monitors) OnInvoke(c *Call) {}
+func (m *Monitors) OnInvoke(c *Call) {
+	if c.Kind == "verify" {
+		if n := m.w.nodes[c.Node]; n.r != nil {
+			if m.verifyCfg == nil {
+				m.verifyCfg = map[int]raft.Configuration{}
+			}
+			m.verifyCfg[c.ID] = n.r.VerifDump().Latest
+		}
+	}
+}
 func (m *Monitors) OnReturn(c *Call) {
 	m.w.logf("RETURN call%d %s on n%d: err=%v index=%d", c.ID, c.Kind, c.Node, c.Err, c.Index)
 	n := m.w.nodes[c.Node]
@@ -760,6 +788,14 @@ func (m *Monitors) OnReturn(c *Call) {
 			if f, ok := m.agreed[i]; ok && m.fsmSees(raft.LogType(f.e.Type)) && i > s.last {
 				m.fail("C08", "barrier-before-apply", "barrier call%d returned at index %d but local FSM has only reached %d (missing %v)", c.ID, c.Index, s.last, f.e)
 				break
+			}
+			// the barrier's own entry is committed, hence so is everything below it in this server's log (entries
+			// committed together with the barrier are not yet known as facts at this instant)
+			if l := n.store.Peek(i); l != nil && i < c.Index && i > s.last && m.fsmSees(l.Type) {
+				if bl := n.store.Peek(c.Index); bl != nil && bl.Type == raft.LogBarrier {
+					m.fail("C08", "barrier-before-apply", "barrier call%d returned at index %d but local FSM has only reached %d (missing %v, committed with the barrier)", c.ID, c.Index, s.last, appliedOf(l))
+					break
+				}
 			}
 		}
 	}
